@@ -517,6 +517,8 @@ func parsePromQLFunc(s Source, expr string, n *promParser.Call) Source {
 
 	case "absent", "absent_over_time":
 		s.Returns = promParser.ValueTypeVector
+		// Returns something only when the argument doesn't.
+		s.AlwaysReturns = false
 		s.FixedLabels = true
 		s.IncludedLabels = nil
 		s.GuaranteedLabels = nil
